@@ -177,35 +177,37 @@ Theorem C11_handshake_boundary : forall te hs msgs a_hs evs,
 Proof. exact handshake_boundary. Qed.
 Print Assumptions C11_handshake_boundary.
 (* BEGIN C11_flow *)
-(* ---- to append to Props/C11.v: incoming flow control cannot make the outcome depend on the chunking (and C13: capacity
-   freed becomes usable again).  Model Wire/Flow.v = DBusCounter with its notify guard (dbus-resources.c), the charge /
+(* ---- incoming flow control cannot make the outcome depend on the chunking (and C13: capacity freed becomes usable
+   again).  Model Wire/Flow.v = DBusCounter with its notify guard (dbus-resources.c), the charge /
    release of messages (dbus-message.c), the transport's dispatch-status test and read watch (dbus-transport.c,
-   dbus-transport-socket.c); proofs in Proofs/FlowProofs.v.  evs = ANY sequence of Arrive / Release / Notify events
-   (notifications delayed arbitrarily); no_set_limits excludes changing the limits of a live connection, for which the
-   statement is false (C11_flow_set_limits_can_wedge).  The seeded defect /verif/seeded/C11_4 (`<=` for `<` in the crossing
-   test) is the machine srun; C11_flow_seeded_refuted* are its wedges, with the value EXACTLY on the limit. *)
+   dbus-transport-socket.c); proofs in Proofs/FlowProofs.v.  evs = ANY sequence of Arrive / Release / Notify / SetLimits
+   events (notifications delayed arbitrarily, limits of the live connection changed at any time).  The seeded defect
+   /verif/seeded/C11_4 (`<=` for `<` in the crossing test) is the machine srun; C11_flow_seeded_refuted* are its wedges,
+   with the value EXACTLY on the limit.  The limit setters before /repo d42cc8a (no check_read_watch) are the machine prun;
+   C11_flow_set_limits_prefix_refuted is its wedge (finding F11-flow-setlimits, fixed). *)
 From DV Require Import Wire.Flow Proofs.FlowProofs.
 From Coq Require Import ZArith List.
 Import ListNotations.
 Local Open Scope Z_scope.
 
-(* (a) accounting, for every crossing test (the seeded one included): the counter is the sum over the live messages *)
-Theorem C11_flow_accounting : forall cross ms mf evs t, run cross (transport_init ms mf) evs = Some t ->
+(* (a) accounting, for every variant of the machine (the seeded and the pre-fix one included): the counter is the sum
+   over the live messages *)
+Theorem C11_flow_accounting : forall cross rc ms mf evs t, run cross rc (transport_init ms mf) evs = Some t ->
   c_size (t_counter t) = sum_size (t_live t) /\ c_fd (t_counter t) = sum_fds (t_live t) /\
   0 <= c_size (t_counter t) /\ 0 <= c_fd (t_counter t).
 Proof. exact flow_accounting. Qed.
 Print Assumptions C11_flow_accounting.
 
 (* (b) NO WEDGE: in every reachable state with no notification pending the read watch is enabled iff both values are
-   below their limits *)
-Theorem C11_flow_no_wedge : forall ms mf evs t, no_set_limits evs = true -> frun (transport_init ms mf) evs = Some t ->
+   below the limits in force; every event is allowed, changing the limits included *)
+Theorem C11_flow_no_wedge : forall ms mf evs t, frun (transport_init ms mf) evs = Some t ->
   c_pending (t_counter t) = false -> read_watch_enabled t = below_limits t.
 Proof. exact flow_no_wedge. Qed.
 Print Assumptions C11_flow_no_wedge.
 
 (* ... and in EVERY reachable state, once the pending notification (if any) has run: nothing pending, values untouched,
    watch enabled iff below the limits *)
-Theorem C11_flow_no_wedge_after_notify : forall ms mf evs t, no_set_limits evs = true ->
+Theorem C11_flow_no_wedge_after_notify : forall ms mf evs t,
   frun (transport_init ms mf) evs = Some t ->
   exists t', fstep t Notify = Some t' /\ c_pending (t_counter t') = false /\
              c_size (t_counter t') = c_size (t_counter t) /\ c_fd (t_counter t') = c_fd (t_counter t) /\
@@ -228,7 +230,7 @@ Proof. exact flow_release_wakes_or. Qed.
 Print Assumptions C11_flow_release_wakes_or.
 
 (* dbus_message_unref in one thread (free_counter = adjusts, then _dbus_counter_notify): right immediately *)
-Theorem C11_flow_unref_immediate : forall ms mf evs t k t', no_set_limits evs = true ->
+Theorem C11_flow_unref_immediate : forall ms mf evs t k t',
   frun (transport_init ms mf) evs = Some t -> frun t (unref k) = Some t' ->
   c_pending (t_counter t') = false /\ read_watch_enabled t' = below_limits t'.
 Proof. exact flow_unref_immediate. Qed.
@@ -236,14 +238,15 @@ Print Assumptions C11_flow_unref_immediate.
 
 (* C11 proper: bytes still in the socket (read watch) and bytes already in the loader (dispatch-status test) are
    treated alike in every quiescent reachable state *)
-Theorem C11_flow_socket_equals_loader : forall ms mf evs t, no_set_limits evs = true ->
+Theorem C11_flow_socket_equals_loader : forall ms mf evs t,
   frun (transport_init ms mf) evs = Some t -> c_pending (t_counter t) = false ->
   read_watch_enabled t = may_queue_more t.
 Proof. exact flow_socket_equals_loader. Qed.
 Print Assumptions C11_flow_socket_equals_loader.
 
 (* (c) what the C guarantees about the limit: tested BEFORE queueing, so below limit + largest message; at/above it
-   nothing more is queued; below it a message of any size is *)
+   nothing more is queued; below it a message of any size is.  (The bound is relative to the initial limits, hence
+   no_set_limits here.) *)
 Theorem C11_flow_overshoot : forall ms mf M F evs t, 0 < ms -> 0 < mf -> 0 <= M -> 0 <= F ->
   no_set_limits evs = true -> arrivals_within M F evs -> frun (transport_init ms mf) evs = Some t ->
   c_size (t_counter t) < ms + M /\ c_fd (t_counter t) < mf + F.
@@ -262,8 +265,8 @@ Proof. exact flow_taken_below_limit. Qed.
 Print Assumptions C11_flow_taken_below_limit.
 
 (* C13 "capacity freed becomes usable again": everything released and the notification run => reading resumes *)
-Theorem C11_flow_capacity_reusable : forall ms mf evs t, 0 < ms -> 0 < mf -> no_set_limits evs = true ->
-  frun (transport_init ms mf) evs = Some t -> t_live t = [] ->
+Theorem C11_flow_capacity_reusable : forall ms mf evs t, frun (transport_init ms mf) evs = Some t ->
+  0 < t_max_size t -> 0 < t_max_fds t -> t_live t = [] ->
   exists t', fstep t Notify = Some t' /\ read_watch_enabled t' = true /\ may_queue_more t' = true.
 Proof. exact flow_capacity_reusable. Qed.
 Print Assumptions C11_flow_capacity_reusable.
@@ -276,7 +279,7 @@ Proof. exact flow_no_wedge_seeded_refuted. Qed.
 Print Assumptions C11_flow_seeded_refuted.
 
 Theorem C11_flow_seeded_release_refuted :
-  exists ms mf evs t k t', srun (transport_init ms mf) evs = Some t /\ step crossed_seeded t (Release k) = Some t' /\
+  exists ms mf evs t k t', srun (transport_init ms mf) evs = Some t /\ step crossed_seeded true t (Release k) = Some t' /\
     c_size (t_counter t) = t_max_size t /\
     below_limits t = false /\ below_limits t' = true /\ c_pending (t_counter t') = false /\ read_watch_enabled t' = false.
 Proof. exact flow_release_wakes_seeded_refuted. Qed.
@@ -288,13 +291,22 @@ Theorem C11_flow_seeded_refuted_fds :
 Proof. exact flow_no_wedge_seeded_refuted_fds. Qed.
 Print Assumptions C11_flow_seeded_refuted_fds.
 
-(* a property of the UNCHANGED code: changing the limits of a live connection can wedge it (replayed on the real
-   transport by tools/props/c11_flow.py, finding F11-flow-setlimits) *)
-Theorem C11_flow_set_limits_can_wedge :
-  exists ms mf evs t, frun (transport_init ms mf) evs = Some t /\
+(* changing the limits of a live connection: nothing pending afterwards, watch right for the NEW limits at once
+   (the setters call live_messages_changed since /repo d42cc8a) ... *)
+Theorem C11_flow_set_limits_immediate : forall ms mf evs t ms' mf' t', frun (transport_init ms mf) evs = Some t ->
+  fstep t (SetLimits ms' mf') = Some t' ->
+  c_pending (t_counter t') = false /\ t_max_size t' = ms' /\ t_max_fds t' = mf' /\
+  c_size (t_counter t') = c_size (t_counter t) /\ c_fd (t_counter t') = c_fd (t_counter t) /\
+  read_watch_enabled t' = below_limits t'.
+Proof. exact flow_set_limits_immediate. Qed.
+Print Assumptions C11_flow_set_limits_immediate.
+
+(* ... before that commit they did not, and raising a limit the connection had reached wedged it *)
+Theorem C11_flow_set_limits_prefix_refuted :
+  exists ms mf evs t, prun (transport_init ms mf) evs = Some t /\
     c_pending (t_counter t) = false /\ below_limits t = true /\ t_live t = [] /\ read_watch_enabled t = false.
-Proof. exact flow_set_limits_can_wedge. Qed.
-Print Assumptions C11_flow_set_limits_can_wedge.
+Proof. exact flow_set_limits_prefix_refuted. Qed.
+Print Assumptions C11_flow_set_limits_prefix_refuted.
 
 (* non-vacuity: the hypotheses are met by runs that sit exactly on the limit *)
 Example C11_flow_ex_at_limit :   (* quiescent, AT the limit: watch off, and that is right *)
@@ -316,5 +328,8 @@ Proof. exact flow_overshoot_tight. Qed.
 Example C11_flow_ex_faithful_on_seeded_witness :
   exists t, frun (transport_init 100 10) seeded_witness = Some t /\ read_watch_enabled t = true.
 Proof. exact faithful_on_witness. Qed.
+Example C11_flow_ex_set_limits :   (* the pre-fix witness on the machine as it is: limit raised while at the limit, watch re-enabled *)
+  exists t, frun (transport_init 100 10) set_limits_witness = Some t /\ read_watch_enabled t = true /\ t_live t = [].
+Proof. exact faithful_on_set_limits_witness. Qed.
 Local Close Scope Z_scope.
 (* END C11_flow *)
